@@ -201,3 +201,38 @@ func verifHarness_C11_request_body_paths() {
 	verifAssertD(tr.frees <= tr.mallocs, "frees-bounded-by-allocations", "request")
 	verifAssert(false, "witness")
 }
+
+// the parser's own cache of an unfinished token (bytesCached, a pooled
+// buffer): a request arriving in three reads, so that a read both consumes a
+// prefix of the cache and leaves a new remainder behind.
+func verifHarness_C11_parser_cache_three_reads() {
+	verifBound("reads", 3)
+	tr := verifSmallTracker()
+	mempool.DefaultMemPool = tr
+	e := verifHTTPEngine()
+	e.BodyAllocator = tr
+	var host, path string
+	e.Handler = http.HandlerFunc(func(w http.ResponseWriter, r *http.Request) {
+		host, path = r.Host, r.URL.Path
+	})
+	conn := &verifNetConn{failAt: -1}
+	p := NewParser(conn, e, NewServerProcessor(), false, nil)
+	w := []byte("GET /ab HTTP/1.1\r\nHost: ex.org\r\nX: y\r\n\r\n")
+	c1 := verifConc(verifInt("cut1", 1, len(w)-2))
+	c2 := verifConc(verifInt("cut2", c1+1, len(w)-1))
+	var err error
+	for _, piece := range [][]byte{w[:c1], w[c1:c2], w[c2:]} {
+		b := append([]byte(nil), piece...)
+		if err == nil {
+			err = p.Parse(b)
+		}
+		for i := range b {
+			b[i] = 0xEE // the read buffer is reused by the poller
+		}
+	}
+	verifAssertD(err == nil, "well-formed-request-accepted", "three-reads")
+	verifAssertD(host == "ex.org" && path == "/ab", "request-parsed-from-cached-pieces", "")
+	p.CloseAndClean(nil)
+	verifAssertD(tr.frees <= tr.mallocs, "frees-bounded-by-allocations", "parser-cache")
+	verifAssert(false, "witness")
+}
